@@ -294,7 +294,12 @@ pub fn run(ctx: &mut Ctx) {
         let stream = idx % 2;
         {
             let iw = e.condition.get_interporation_weight_mut();
-            let ok = iw.set_parameter(stream, &wp).is_ok() && iw.set_gv(stream, &wg).is_ok();
+            // (either order: the two kinds of weights are independent of each other)
+            let ok = if (idx / 2) % 2 == 0 {
+                iw.set_parameter(stream, &wp).is_ok() && iw.set_gv(stream, &wg).is_ok()
+            } else {
+                iw.set_gv(stream, &wg).is_ok() && iw.set_parameter(stream, &wp).is_ok()
+            };
             if !ok {
                 ctx.violation("valid-weights-rejected", J::Null);
                 return;
